@@ -55,6 +55,60 @@ CLAIMS = {
               "Tie: generated cases on a falsy-heavy alphabet compared row by row with the model; evidence counts falsy values routed."),
         design='7/C19', technique='Coq proof (unconditional forms of the evaluator theorems) + correspondence on the falsy alphabet',
         note=BASE_NOTE + " Field constraints / constructor arguments (C13/C11 positions) are covered by those properties' checks."),
+
+    'C05': dict(
+        text=("PARTIAL. Proved (unbounded histories of lookups): an operator answering covered lookups from a memo returns exactly the "
+              "uncached results provided stored entries are the uncached results of their lookups (C05_memo_transparent_partial). The "
+              "concrete index is modelled and decided separately (C20: coverage proved, retrieval completeness refuted). NOT proved: that "
+              "the five cache call sites of symbolic.py meet the contract - that part is covered by the correspondence check only: every "
+              "generated query (all shapes) is run twice with caching disabled and twice enabled on fresh objects and the four row "
+              "multisets are compared with each other and with the specification, with cache-hit counts in the evidence."),
+        design='7/C05', technique='Coq proof for the abstract memo (contract preservation by induction over lookup histories) + differential correspondence cache on/off',
+        note=BASE_NOTE + " The cached path of the implementation (in-place mutation and aliasing of binding dictionaries) is abstracted; known finding C05-wildcard-retrieval."),
+    'C06': dict(
+        text=("Machine-checked: C06_none / C06_value / C06_many decide the outcome of `the` by the number of satisfying assignments (0, 1, >= 2) "
+              "for every description with all variables selected, any heap and duplicate-free domains, from C02's exactly-once theorem and the "
+              "model of The._evaluate_ (consume, fail on the second row, fail if none); C06_same_as_an: the value is the row `an` yields. "
+              "Tie: outcome enum and value of generated descriptions (entity / set_of, 1-2 variables), first evaluation and re-evaluation, "
+              "cache off and on, against the model."),
+        design='7/C06', technique='Coq proof (corollary of the counting theorem C02_all_selected) + correspondence on outcomes',
+        note=BASE_NOTE + " Re-evaluation consistency rests on the reset-in-finally repair (C04) and the correspondence; `the` nested as an operand is not modelled."),
+    'C10': dict(
+        text=("PARTIAL. Proved: the algorithm of ForAll (one pass per universal value, running intersection, early exit) keeps exactly the rows "
+              "of the first pass matched in every other pass, for any number of universal values (C10_intersection_partial, induction over "
+              "the domain). NOT proved: that one pass returns exactly the satisfying assignments of the free variables under that universal "
+              "value (needs the partition invariant with the universal variable pre-bound); that half and the and_ combination are covered by "
+              "the correspondence: generated for_all queries (condition over the universal variable, the free variables, both, neither; "
+              "alone or and-ed on either side) compared with the model and the quantified specification, cache off and on."),
+        design='7/C10', technique='Coq proof (fold/intersection lemma by induction over the universal domain) + P-model correspondence',
+        note=BASE_NOTE + " CForAll is outside the fragment of the partition invariant; for_all under or_/not_ is outside the property."),
+    'C15': dict(
+        text=("Machine-checked: C15_inline_sat (inlining every sub-query used as a condition preserves truth) and C15_inline_rows (the composed and "
+              "the inlined query return the same rows for any selection, heap and domains): the nested An node is part of the fragment of the "
+              "partition invariant (eval_cover handles CSub, including the sub-query's own selected variables being bound). Tie: generated "
+              "queries with sub-queries under & and | compared with the model and with the specification that reads them inlined."),
+        design='7/C15', technique='Coq proof (CSub case of the partition invariant + C02 soundness/completeness) + correspondence',
+        note=BASE_NOTE + " Operand and constructor-argument positions of a sub-query are not in the model yet (condition position only)."),
+    'C16': dict(
+        text=("Machine-checked for every heap, parent domain and inner collection: C16_unnest (parent and element selected: one row per inner "
+              "element, each with its parent, in order, with multiplicity), C16_unnest_elem (element only), C16_unnest_filtered (a condition on "
+              "the element filters element rows and keeps the correlation). Tie: generated flatten queries (all selections, conditions on "
+              "element / parent / both / disjunction / membership) compared as exact row sequences with the model, cache off and on."),
+        design='7/C16', technique='Coq proof (direct structural induction over parent domain and inner collection) + correspondence',
+        note=BASE_NOTE + " Conditions other than element-vs-literal are covered by correspondence only; nested tuples are outside the value subset."),
+    'C17': dict(
+        text=("Machine-checked: C17_single (exactly one row carrying all inner elements in domain order and inner order with multiplicity, also "
+              "for no parent / all-empty collections) and C17_membership (membership and non-membership of an outer variable select exactly the "
+              "(non-)members, in outer order). Tie: generated concatenate queries compared with the model (the list value as a sequence)."),
+        design='7/C17', technique='Coq proof (direct computation on the P-model, induction over the outer domain) + correspondence',
+        note=BASE_NOTE + " The inner variable of a concatenation is assumed not to be used elsewhere in the query (the code binds it to a list)."),
+    'C18': dict(
+        text=("Machine-checked: C18_rewrite_sat (truth is invariant under every composition of: and/or commutativity and re-association, "
+              "comparison mirroring, contains vs in_), C18_invariant and C18_domain_permutation (hence the result set, via C02), C18_tables (fold "
+              "direction and builders regenerated from the source). Tie: metamorphic pairs - a random query and a random rewrite of it (incl. "
+              "declaration/selection order and permuted domains) - both compared with each other, the model and the specification."),
+        design='7/C18', technique='Coq proof (induction over rewrite derivations; corollary of C02) + translator tables + metamorphic correspondence',
+        note=BASE_NOTE + " Declaration/selection order changes are column permutations handled by the harness; inherits C02's fragment."),
 }
 
 NOT_YET = {}
